@@ -6,6 +6,9 @@ B=${1:?builddir}
 export GOFLAGS=-mod=mod GOPROXY=off GOSUMDB=off GOTOOLCHAIN=local
 GO=go1.26.8
 V=${VERIF_ROOT:-/verif}
+# The registered checks always build /repo's working tree. VERIF_REPO points the build at a scratch
+# worktree instead (used only by the mutation waves so that several can run without touching /repo).
+R=${VERIF_REPO:-/repo}
 TB=$V/.build/tools
 mkdir -p "$B" "$TB" || exit 2
 fail() { echo "BUILD-ERROR: $*" >&2; exit 2; }
@@ -13,9 +16,13 @@ if [ ! -x $TB/protogen ] || [ ! -x $TB/simrewrite ] || [ ! -x $TB/protoc-gen-con
   (cd $V/tools && $GO build -o $TB/protogen ./protogen && $GO build -o $TB/simrewrite ./simrewrite && $GO build -o $TB/protoc-gen-connect-go connectrpc.com/connect/cmd/protoc-gen-connect-go) || fail "tools"
 fi
 rm -rf "$B/gen" "$B/rw"
-$TB/protogen /repo "$B/gen" $TB/protoc-gen-connect-go || fail "protogen"
+$TB/protogen $R "$B/gen" $TB/protoc-gen-connect-go || fail "protogen"
 PKGS="batching clocks dkv dkv/bg dkv/memtable dkv/recovery dkv/sst dkv/wal dkv/storage jobs storage/snapshots workers workers/operator workers/sourcerunner workers/wmark connectors connectors/embedded connectors/httpapi connectors/kinesis util/ds"
-$TB/simrewrite /repo "$B/rw" $V/simrt "$B/gen" $PKGS > "$B/rewrite.log" || fail "simrewrite (see $B/rewrite.log)"
-(cd $V && cp /repo/go.sum $B/repo.go.sum 2>/dev/null; $GO test -c -tags verif -vet=off -overlay "$B/rw/overlay.json" -o "$B/h.test" ./h) || fail "go test -c"
+$TB/simrewrite $R "$B/rw" $V/simrt "$B/gen" $PKGS > "$B/rewrite.log" || fail "simrewrite (see $B/rewrite.log)"
+MODFLAG=""
+if [ "$R" != "/repo" ]; then
+  sed "s#=> /repo#=> $R#" $V/go.mod > "$B/alt.mod"; cp $V/go.sum "$B/alt.sum"; MODFLAG="-modfile=$B/alt.mod"
+fi
+(cd $V && $GO test $MODFLAG -c -tags verif -vet=off -overlay "$B/rw/overlay.json" -o "$B/h.test" ./h) || fail "go test -c"
 (cd $V && $GO build -o "$B/simrun" ./cmd/simrun) || fail "simrun"
 echo "build ok: $B"
